@@ -32,7 +32,14 @@ def run(ctx):
     t2 = []
     r3 = CC.registry(t2)
     r3.trace = t2
-    dsl.verify(ctx, repo, r3, "C19.conc", CC.SAMPLE, CC.h_sample, expect_covers=["K=0", "K>=1"])
+    def conc_replay(name, model):
+        from bounded import concentration as BCn
+
+        rr = BCn.run("quick", 0)
+        return {"reproduced": bool(rr["problems"]), "problems": rr["problems"][:3]}
+
+    dsl.verify(ctx, repo, r3, "C19.conc", CC.SAMPLE, CC.h_sample, expect_covers=["K=0", "K>=1"], concretise=conc_replay)
+    dsl.verify(ctx, repo, r3, "C19.conc", CC.SAMPLE, CC.h_sample_result, expect_covers=["result"], concretise=conc_replay)
     dsl.verify(ctx, repo, dsl.Registry(), "C19.conc", CC.UPDATE, CC.h_update, expect_covers=["outlier-key", "no-outlier-key"])
     ctx.trust(*r.assumed)
     ctx.trust(*r2.assumed)
